@@ -396,12 +396,35 @@ def run(ck: Check):
             drv.close()
 
     found = {}
+    # corpus first: minimised past failures (found before the fixes F22, F31-F35) must stay repaired
+    import contextlib
+    import io
+
+    for f in sorted((VERIF / "corpus" / "C10").glob("*.json")):
+        obj = json.loads(f.read_text())
+        try:
+            with contextlib.redirect_stdout(io.StringIO()) as buf:
+                rc = replay(str(f))
+        except Exception as e:
+            rc, buf = 2, io.StringIO(f"{type(e).__name__}: {e}")
+        known = any(k == obj.get("signature") for k, _ in ck.known)
+        ck.case(key=("corpus", f.name), bucket=f"corpus/{'fails' if rc == 1 else 'ok' if rc == 0 else 'error'}")
+        if rc == 1 and not known:
+            ck.violation(obj["signature"], f"corpus case {f.name} fails again: {obj.get('what', '')[:160]}",
+                         {k: v for k, v in obj.items() if k not in ("property", "signature", "what", "failing_input_found")})
+        elif rc == 2:
+            ck.notes.append(f"corpus case {f.name} could not be replayed: {buf.getvalue()[-200:]}")
     t_end = ck.t0 + (80 if not ck.thorough() else 800)
     cases = CS.all_cases(ck.thorough())
-    for case in cases:
-        explore_case(ck, case, found, budget=t_end)
-    for case in joint_cases(ck, cases):
-        explore_case(ck, case, found, budget=t_end)
+    jcases = joint_cases(ck, cases)
+    # fair share of the time budget: 60% for the classes, the rest for joints; one case may use at most 2.5x its share
+    t_mid = time.time() + 0.6 * max(t_end - time.time(), 1.0)
+    for phase_end, group in ((t_mid, cases), (t_end, jcases)):
+        for i, case in enumerate(group):
+            now = time.time()
+            share = 2.5 * max(phase_end - now, 0.0) / (len(group) - i)
+            explore_case(ck, case, found, budget=min(phase_end, now + max(share, 0.5)))
+    ck.extra["time_budget_exhausted"] = time.time() > t_end
     explore_objectives(ck, found)
     ck.extra["classes_covered"] = sorted({c.name for c in cases})
 
